@@ -143,6 +143,7 @@ pub const FAMILIES: &[&str] = &[
     "boundary",
     "cospherical",
     "two_scale",
+    "void",
 ];
 
 pub const MASKS: &[&str] = &["none", "all_true", "all_false", "single", "random"];
@@ -303,6 +304,33 @@ pub fn gen_case(rng: &mut Rng, lim: &GenLimits) -> Case {
             if rng.chance(0.5) {
                 unit.push([0.5, 0.5, 0.5]);
             }
+        }
+        "void" => {
+            // one generator in an empty region surrounded by a dense shell: a single
+            // cell with (very) many faces and vertices next to many small ones
+            let big = (lim.max_n.max(2) - 1).min(60 + rng.below(140) as usize);
+            let m = if rng.chance(0.6) { big } else { n };
+            let r = 0.25 + 0.15 * rng.f64();
+            let thick = 10f64.powf(-1.0 - 5.0 * rng.f64());
+            for _ in 0..m {
+                let (mut x, mut y, mut z);
+                loop {
+                    x = rng.sym() * 2.0;
+                    y = rng.sym() * 2.0;
+                    z = rng.sym() * 2.0;
+                    let l = (x * x + y * y + z * z).sqrt();
+                    if l > 1e-3 && l <= 1.0 {
+                        x /= l;
+                        y /= l;
+                        z /= l;
+                        break;
+                    }
+                }
+                let rr = r * (1.0 + thick * rng.sym());
+                unit.push([0.5 + rr * x, 0.5 + rr * y, 0.5 + rr * z]);
+            }
+            let at = rng.below(unit.len() as u64 + 1) as usize;
+            unit.insert(at, [0.5 + 1e-3 * rng.sym(), 0.5 + 1e-3 * rng.sym(), 0.5 + 1e-3 * rng.sym()]);
         }
         _ => {
             // two_scale: a coarse uniform background plus one tight clump:
